@@ -80,14 +80,24 @@ def decodableChildren (t : String) : List String :=
 /-- `o.Field` ↦ the field's Go type -/
 def fieldType (t : String) (fname : String) : Option String := ((fieldsOf t).find? (·.name = fname)).map (·.type)
 
-/-- element names written by a `marshalInner*` call list (`e.Encode(o.X)` per collection of `OSM`) -/
-def emittedBy (calls : List String) : List String :=
-  calls.filterMap fun c =>
-    let inner := stripPrefix "e.Encode(o." c
-    if inner = c then none
-    else
-      let fname := String.ofList (inner.toList.takeWhile (· ≠ ')'))
-      (fieldType "OSM" fname).map fun ty => xmlNameOf (elemType 4 ty)
+/-- one call of a `marshalInner*` list: the `OSM` field it encodes and the element name it comes out under.
+    `e.Encode(o.X)` uses encoding/xml's own-name rule; `e.EncodeElement(o.X, name:n)` the explicit start element. -/
+def callTarget (call : String) : Option (String × String) :=
+  let a := stripPrefix "e.Encode(o." call
+  if a ≠ call then
+    let fname := String.ofList (a.toList.takeWhile (· ≠ ')'))
+    (fieldType "OSM" fname).map fun ty => (fname, xmlNameOf (elemType 4 ty))
+  else
+    let b := stripPrefix "e.EncodeElement(o." call
+    if b ≠ call then
+      let fname := String.ofList (b.toList.takeWhile (· ≠ ','))
+      match splitStr ':' b with
+      | [_, n] => some (fname, String.ofList (n.toList.takeWhile (· ≠ ')')))
+      | _ => none
+    else none
+
+/-- element names written by a `marshalInner*` call list -/
+def emittedBy (calls : List String) : List String := calls.filterMap fun c => (callTarget c).map (·.2)
 
 /-! ### flat attribute codec (the part of a record that is attributes) -/
 
@@ -149,12 +159,8 @@ def Counts.of (c : Counts) (fname : String) : Nat :=
 /-- child element names written by a `marshalInner*` call list for given contents -/
 def innerNames (calls : List String) (c : Counts) : List String :=
   calls.flatMap fun call =>
-    let inner := stripPrefix "e.Encode(o." call
-    if inner = call then []
-    else
-      let fname := String.ofList (inner.toList.takeWhile (· ≠ ')'))
-      match fieldType "OSM" fname with
-      | some ty => List.replicate (c.of fname) (xmlNameOf (elemType 4 ty))
-      | none => []
+    match callTarget call with
+    | some (fname, n) => List.replicate (c.of fname) n
+    | none => []
 
 end OsmVerif.Model.Schema
